@@ -1957,7 +1957,7 @@ function visitors.Switch(context, node)
     end
     done = done and caseblock.done and true
     local casescope = context:get_forked_scope(caseblock)
-    casescope.switchcase_index = 1
+    casescope.switchcase_index = i
     context:traverse_node(caseblock)
     if casescope.fallthrough and casescope.fallthrough ~= caseblock[#caseblock] then
       casescope.fallthrough:raisef("`fallthrough` statement must be the very last statement of a switch case block")
